@@ -25,6 +25,18 @@ ALPHABET = {
 }
 
 
+def stageable(name="dev"):
+    """an abstract Stageable device: stage() / unstage() return the list of staged devices and never fail"""
+    return Opaque(name, {"token": "dev", "truth": True, "isinstance_default": False, "isinstance": {"Stageable": True},
+                         "hasattr": {"pause": False, "resume": False, "stop": False, "name": True}, "attrs": {"name": name, "parent": None},
+                         "methods": {"stage": lambda I_, o, a, k: [o], "unstage": lambda I_, o, a, k: [o]}})
+
+
+DEV = stageable()
+ALPHABET["stage"] = msg("stage", DEV)          # implicit checkpoints
+ALPHABET["unstage"] = msg("unstage", DEV)
+
+
 REQUEST_COROS = {"_request_pause_coro", "_abort_coro", "_stop_coro", "_halt_coro", "_request_suspend"}
 
 
@@ -175,26 +187,29 @@ class Scenario:
     def run(self, on_return=None):
         """RE(plan), then post-pause decisions until the engine is idle (or the decision menu is empty)"""
         eng, w = self.eng, self.w
-        r = eng.call("__call__", self.plan)
-        calls = [("__call__", r)]
-        if on_return:
-            on_return("__call__", r)
-        while eng.state == "paused" and self.post_pause:
-            self.loop.cut("main thread: engine paused")       # closure on the paused configuration
-            d = w.choose(list(self.post_pause), "post-pause decision")
-            if d != "resume":
-                self.requests.append(d)
-                eng.event("request", d, "paused")
-            r = eng.call(d, *(("because",) if d == "abort" else ()))
-            calls.append((d, r))
+        calls = []
+
+        def one_call():
+            r = eng.call("__call__", self.plan)
+            calls.append(("__call__", r))
             if on_return:
-                on_return(d, r)
+                on_return("__call__", r)
+            while eng.state == "paused" and self.post_pause:
+                self.loop.cut("main thread: engine paused")       # closure on the paused configuration
+                d = w.choose(list(self.post_pause), "post-pause decision")
+                if d != "resume":
+                    self.requests.append(d)
+                    eng.event("request", d, "paused")
+                r = eng.call(d, *(("because",) if d == "abort" else ()))
+                calls.append((d, r))
+                if on_return:
+                    on_return(d, r)
+        one_call()
         if self.second_call is not None and eng.state == "idle":
             # the next plan on the same engine: what the previous call left behind must not leak into it
             names = list(self.second_call)
-            self.plan = Plan(eng, "plan2", lambda p: [(m, ALPHABET[m]) for m in names], handles=False, can_raise=False, max_len=1)
+            self.plan = Plan(eng, "plan2", lambda p: [(m, ALPHABET[m]) for m in names], handles=False, can_raise=False, max_len=2)
             self.requests = []
             self.env_kinds = ()
-            r = eng.call("__call__", self.plan)
-            calls.append(("__call__#2", r))
+            one_call()
         return calls
